@@ -182,6 +182,12 @@ def run(tier, v):
         conns.append([c10.frame(ca, (10, 3, 0, 2), cp, 80, 100, 0, 0x02, opts=b"\x02\x04\x05\xb4", ipid=i & 0xffff), c10.frame(ca, (10, 3, 0, 2), cp, 80, 101, 1, 0x18, b, ipid=i & 0xffff),
                       c10.frame((10, 3, 0, 2), ca, 80, cp, 1, 101 + len(b), 0x18, b, ipid=i & 0xffff)])
     inputs["frame"] += [c10.frame((10, 3, 2, 1), (10, 3, 0, 2), 41000 + (i % 20000), 443, 1, 1, 0x18, b, ipid=i & 0xffff) for i, b in enumerate(tlsshapes)]
+    # the shortest payloads there are: 1 to 6 octets beginning like a TLS record of every content type (and like nothing), as a zero-window
+    # probe or a segment cut by the sender would carry them
+    shorts = [bytes([t]) + bytes([3, 3, 0, 5, 1])[:n] for t in (0x14, 0x15, 0x16, 0x17, 0x18, 0x00, 0x80, 0xff) for n in range(0, 6)]
+    inputs["hello"] += shorts
+    inputs["frame"] += [c10.frame((10, 3, 4, 1), (10, 3, 0, 2), 43000 + i, 443, 1, 1, 0x18, b, ipid=i) for i, b in enumerate(shorts)]
+    inputs["frame"] += [c10.frame6(bytes([0x20, 1, 0xd, 0xb8] + [0] * 11 + [4]), bytes([0x20, 1, 0xd, 0xb8] + [0] * 11 + [2]), 43100 + i, 443, 1, 1, 0x18, b) for i, b in enumerate(shorts)]
     for k in inputs:
         rng.shuffle(inputs[k])
     rng.shuffle(conns)
